@@ -1,11 +1,15 @@
 import SaphyrModel.Parser2
 import SaphyrModel.Proofs.TokDocs
 import SaphyrModel.Api
+import SaphyrModel.Proofs.Unwind
 /-! # C15 — Documents are parsed independently (component theorems, parser level)
 
 What carries over from one document to the next in the parser is its tag table and its anchor
-table. The scanner-state part of C15 (indentation, flow level, simple keys reset at a document
-marker) is not covered by a theorem; the check's oracle compares A ++ "...\n" ++ B with A and B. -/
+table. Of the scanner-state part of C15 the block state is covered: `document_marker_closes_all_blocks` — whatever
+block structure is open, a document marker leaves indentation −1, an empty indent stack and no simple key
+allowed, having emitted exactly the `BlockEnd`s owed (`unroll_indent_closed_form`). Flow level and
+implicit-mapping state at a marker are not covered by a theorem; the check's oracle compares
+A ++ "...\n" ++ B with A and B. -/
 namespace SaphyrModel.C15
 open SaphyrModel
 
@@ -82,5 +86,37 @@ theorem documents_parse_alone (A : List Doc) (hl : legal true A = true) (ss se :
         (PState.init (⟨ss, .streamStart⟩ :: (docsToks A ++ [⟨se, .streamEnd⟩])) none eof keep) =
         .ok ((.streamStart, ss) :: (ea ++ [(.streamEnd, se)]), pf) ∧ DocsEvents A ea ∧ pf.state = .end :=
   stream_docs_parse A hl ss se eof keep
+
+open SaphyrModel.Sc in
+/-- **`unroll_indent(-1)` in closed form**: from any state with a well-formed indent stack (the scanner's
+    structural invariant `Inv.ind`, preserved by every scanner function — C01) outside flow collections, the
+    stack is emptied, the indentation set to −1, and one `BlockEnd` appended per level that owed one; no other
+    field of the scanner state changes. -/
+theorem unroll_indent_closed_form (s : Sc) (hw : WFInd s.indent s.indents) (hfl : s.flowLevel = 0) :
+    unrollIndent (-1) s =
+      .ok ((), { s with indent := -1, indents := [], tokens := s.tokens ++ blockEnds s.mark s.indents }) :=
+  unrollIndent_all s hw hfl
+
+open SaphyrModel.Sc in
+/-- **No indentation state survives a document marker.** Whatever block collections are open when `---` or
+    `...` is fetched — any well-formed indent stack of any depth — afterwards the scanner's indentation is −1,
+    its indent stack is empty, a simple key may not start, and what it has emitted is exactly one `BlockEnd` per
+    open level that owed one, then the marker: the next document starts from the block state of a fresh scanner. -/
+theorem document_marker_closes_all_blocks (t : TokenType) (s : Sc) (hw : WFInd s.indent s.indents) (hfl : s.flowLevel = 0) :
+    match fetchDocumentIndicator t s with
+    | .ok (_, s') => s'.indent = -1 ∧ s'.indents = [] ∧ s'.simpleKeyAllowed = false ∧ s'.flowLevel = 0 ∧
+        ∃ sp, s'.tokens = s.tokens ++ blockEnds s.mark s.indents ++ [⟨sp, t⟩]
+    | _ => True :=
+  fetchDocumentIndicator_unwinds t s hw hfl
+
+open SaphyrModel.Sc in
+/-- non-vacuity: two open block levels (a mapping at column 0 holding a sequence at column 2), `---` ahead -/
+example :
+    let s : Sc := { mkSc .str 0 ['-','-','-','\n'] with indent := 2, indents := [⟨0, true⟩, ⟨-1, true⟩], simpleKeys := [⟨false, false, 0, ⟨0,1,0⟩⟩] }
+    WFInd s.indent s.indents ∧ s.flowLevel = 0 ∧
+    (match fetchDocumentIndicator .documentStart s with
+     | .ok (_, s') => s'.tokens.map (·.ty) == [.blockEnd, .blockEnd, .documentStart] && s'.indent == -1
+     | _ => false) = true := by
+  refine ⟨by simp [WFInd, mkSc], rfl, by decide +kernel⟩
 
 end SaphyrModel.C15
